@@ -186,6 +186,10 @@ class Unit:
                         self.rules = v.split(',')
                 i += 1
                 continue
+            if s.startswith('//@include'):
+                inc = os.path.join(os.path.dirname(os.path.dirname(self.template_path)), s.split()[1])
+                tl[i:i + 1] = open(inc).read().split('\n')
+                continue
             if s.startswith('//@cut'):
                 parts = s.split()
                 kind, path, item = parts[1], parts[2], parts[3]
@@ -275,7 +279,10 @@ class Unit:
                           'lines': text.count('\n') + 1, 'sha256': sha})
         where = '%s:%s' % (path, item)
         try:
-            new, lmap = apply_rules(self._ruleset(opts.get('rules')), text, first_line, self.rule_log, where)
+            rs = self._ruleset(opts.get('rules'))
+            if kind == 'fn' and any(r.rid == 'X-WIN' for r in rs):
+                rs = [r for r in rs if r.rid != 'X-WIN'] + RULES.win_rules(text)
+            new, lmap = apply_rules(rs, text, first_line, self.rule_log, where)
         except ValueError as e:
             raise GenError('rule engine: %s in %s' % (e, where))
         if kind != 'fn':
